@@ -7,19 +7,37 @@ Open Scope N_scope.
 
 (* After ANY event sequence, folding the events that were published (as a client reads them) over the
    initial-or-default value with the reference semantics of Spec.v is defined - every published event is
-   applicable to the client's view - and gives the value served by get; reopening serves the same. *)
+   applicable to the client's view - and gives the stored-or-default value, which is what get serves
+   (handlers without Map callback; with resbadger.Model.WithMap get serves Map of it: mapped_get);
+   reopening serves the same. *)
 Theorem served_is_fold : forall c s es,
   exists v,
     spec_fold (c_def c) (published c s es) (served (c_def c) (st_val s)) = Some v /\
-    geqv (get_resource c (final c s es)) (gres_of v) /\
+    veqv (served (c_def c) (st_val (final c s es))) v /\
+    (maps c = None -> geqv (get_resource c (final c s es)) (gres_of v)) /\
     get_resource c (reopen (final c s es)) = get_resource c (final c s es) /\
     value_resource c (reopen (final c s es)) = value_resource c (final c s es).
 Proof. exact served_is_fold_pf. Qed.
 
 (* Value() returns what get serves whenever Default, initial entry and events are of the handler's Type *)
 Theorem value_is_fold : forall c s es,
-  well_typed c s es = true -> value_resource c (final c s es) = get_resource c (final c s es).
+  maps c = None -> well_typed c s es = true ->
+  value_resource c (final c s es) = get_resource c (final c s es).
 Proof. exact value_is_fold_pf. Qed.
+
+(* resbadger.Model.WithMap: get serves Map(the stored entry unmarshalled into Type), an error when the entry
+   does not unmarshal or Map fails; the Default is served unmapped; Value() is not mapped *)
+Theorem mapped_get : forall c s f,
+  maps c = Some f ->
+  get_resource c s =
+    match st_val s with
+    | Some r => match decode c r with
+                | Some r' => match f r' with Some x => GOk x | None => GErr end
+                | None => GErr
+                end
+    | None => gres_of (c_def c)
+    end.
+Proof. exact mapped_get_pf. Qed.
 
 (* the handlers keep nothing outside the database *)
 Theorem reopen_same : forall s, reopen s = s.
@@ -81,10 +99,11 @@ Theorem idx_consistent : forall c ks s es,
 Proof. exact idx_consistent_pf. Qed.
 
 (* ---- non-vacuity and witnesses ---- *)
+Definition Cfg0 p t y d i := Cfg p t y d i None.
 Definition ka : key := [97].
 Definition kb : key := [98].
-Definition cfg_legacy_model := Cfg Legacy TModel TyAny None None.
-Definition cfg_resb_coll_num := Cfg ResB TColl TyNum None None.
+Definition cfg_legacy_model := Cfg0 Legacy TModel TyAny None None.
+Definition cfg_resb_coll_num := Cfg0 ResB TColl TyNum None None.
 Definition empty := St None [].
 
 (* a run that publishes create, change, delete, create and ends serving the fold *)
@@ -99,7 +118,7 @@ Example served_nonvacuous :
 Proof. vm_compute. repeat split. Qed.
 
 Example collection_nonvacuous :
-  let c := Cfg ResB TColl TyAny (Some (RColl [JNum 1])) None in
+  let c := Cfg0 ResB TColl TyAny (Some (RColl [JNum 1])) None in
   let es := [EAdd (GStr [120]) 1; EAdd (GNum 5) 3; ERemove 0; ERemove 7; EDelete; EAdd (GInt 9) 0] in
   published c empty es = [SAdd (JStr [120]) 1; SRemove 0; SDelete; SAdd (JNum 9) 0] /\
   get_resource c (final c empty es) = GOk (RColl [JNum 9; JNum 1]).
@@ -128,7 +147,7 @@ Proof. vm_compute. reflexivity. Qed.
    property is published and removes it; null -> null is no change (nothing published); absent -> null
    is a change with the delete action as old value *)
 Example null_is_not_absent :
-  let c := Cfg ResB TModel TyAny None None in
+  let c := Cfg0 ResB TModel TyAny None None in
   let s := St (Some (RModel [(ka, JNull); (kb, JNum 1)])) [] in
   o_call (fire c s (EChange [(ka, Put (GStr [120]))])) = Some (LChange [(ka, Put (JStr [120]))] [(ka, Put JNull)]) /\
   fire c s (EChange [(ka, Del)]) =
@@ -142,7 +161,7 @@ Proof. vm_compute. repeat split. Qed.
 (* note on the current code: a null stored under a float64-valued Type (an event value that is not of the
    Type) is served as null by get but as 0 by Value(), and handed as 0 to delete listeners *)
 Example null_into_float_type :
-  let c := Cfg Legacy TModel TyNum None None in
+  let c := Cfg0 Legacy TModel TyNum None None in
   let s := final c empty [ECreate (RModel [(ka, JNum 1)]); EChange [(ka, Put GNull)]] in
   get_resource c s = GOk (RModel [(ka, JNull)]) /\ value_resource c s = GOk (RModel [(ka, JNum 0)]) /\
   o_call (fire c s EDelete) = Some (LDelete (Some (RModel [(ka, JNum 0)]))).
@@ -151,7 +170,7 @@ Proof. vm_compute. repeat split. Qed.
 (* a stored entry that is the JSON text null (CreateEvent(nil)) is served as null, distinct from an empty
    collection; an add at 0 treats it as empty, a remove is out of range, setting a property panics *)
 Example null_resource :
-  let c := Cfg Legacy TColl TyAny None None in
+  let c := Cfg0 Legacy TColl TyAny None None in
   let s := final c empty [ECreate RNull] in
   get_resource c s = GOk RNull /\ value_resource c s = GOk RNull /\
   fire c s (ERemove 0) = silent true s /\
@@ -172,20 +191,41 @@ Example delete_on_missing_publishes :
   fire cfg_legacy_model empty EDelete = Obs false (Some PDelete) (Some (LDelete None)) empty.
 Proof. vm_compute. reflexivity. Qed.
 Example add_on_missing_creates :
-  let c := Cfg ResB TColl TyAny None None in
+  let c := Cfg0 ResB TColl TyAny None None in
   fire c empty (EAdd (GNum 1) 0) = Obs false (Some (PAdd (JNum 1) 0)) (Some (LAdd (JNum 1) 0)) (St (Some (RColl [JNum 1])) []).
 Proof. vm_compute. reflexivity. Qed.
 
 (* idx_consistent needs its hypotheses: with a Default the entry of a first change is never written ... *)
 Example idx_stale_with_default :
   let ks := [field_key ka] in
-  let c := Cfg ResB TModel TyAny (Some (RModel [(ka, JStr [120])])) (Some ks) in
+  let c := Cfg0 ResB TModel TyAny (Some (RModel [(ka, JStr [120])])) (Some ks) in
   final c empty [EChange [(kb, Put (GNum 1))]] = St (Some (RModel [(ka, JStr [120]); (kb, JNum 1)])) [] /\
   idx_spec ks (Some (RModel [(ka, JStr [120]); (kb, JNum 1)])) = [(0, [120])].
 Proof. vm_compute. split; reflexivity. Qed.
 (* ... and an empty non-nil key written by applyCreate is never removed by applyChange *)
 Example idx_stale_empty_key :
   let ks := [field_key ka] in
-  let c := Cfg ResB TModel TyAny None (Some ks) in
+  let c := Cfg0 ResB TModel TyAny None (Some ks) in
   st_idx (final c empty [ECreate (RModel [(ka, JStr [])]); EChange [(ka, Put (GStr [120]))]]) = [(0, []); (0, [120])].
 Proof. vm_compute. reflexivity. Qed.
+
+(* a value that cannot be marshalled: nothing is published, nothing changes *)
+Example unmarshalable_values :
+  let s := St (Some (RModel [(ka, JNum 1)])) [] in
+  fire cfg_legacy_model s (EChange [(kb, Put GBad)]) = silent true s /\
+  fire cfg_legacy_model empty ECreateBad = silent true empty /\
+  fire (Cfg0 ResB TColl TyAny None None) empty (EAdd GBad 0) = silent true empty.
+Proof. vm_compute. repeat split. Qed.
+
+(* WithMap: get serves the mapped value, Value() the stored one; index listener calls of one change *)
+Example mapped_and_listeners :
+  let ks := [field_key ka; field_key kb] in
+  let c := Cfg ResB TModel TyAny None (Some ks) (Some std_map) in
+  let s := final c empty [ECreate (RModel [(ka, JNum 1); (kb, JStr [120])])] in
+  get_resource c s = GOk (RModel [(ka, JNum 1); (fld_m, JNum 1)]) /\
+  value_resource c s = GOk (RModel [(ka, JNum 1); (kb, JStr [120])]) /\
+  idx_calls c s (EChange [(ka, Put (GNum 2))]) =
+    [IC (Some 0) (Some (RModel [(ka, JNum 1); (kb, JStr [120])])) (Some (RModel [(ka, JNum 2); (kb, JStr [120])]));
+     IC None (Some (RModel [(ka, JNum 1); (kb, JStr [120])])) (Some (RModel [(ka, JNum 2); (kb, JStr [120])]))] /\
+  rebuild c true s = RbOk [(0, [49]); (1, [120])].
+Proof. vm_compute. repeat split. Qed.
